@@ -170,6 +170,20 @@ CHECKS["C11"] = dict(
     technique="TLA+ spec (FileOpsProps) model-checked and simulated with TLC; TLC histories replayed step by step into "
               "FileSet write/move/delete with the directory contents compared after every step")
 
+CHECKS["C19"] = dict(
+    text="ScoresProps.tla (on Rat.tla, exact rationals) defines the pinball loss, the mean score, tau-quantiles, mape and "
+         "bias; TLC model-checks non-negativity, zero-iff-equal, that the minimiser set of the mean pinball loss over the "
+         "candidates coincides with the tau-quantiles among them, the percent laws and scale invariance for all samples of "
+         "the bound and all tau = k/8, and emits cases with exact scores; the real functions are evaluated on the same dyadic "
+         "values (exact float arithmetic) in shapes (n,), (n,1), (n,k), the argmin set over constant estimates is recomputed "
+         "with the real mean_quantile_score and compared with TLC's, inconsistent shapes must raise ValueError.",
+    ref="DESIGN.md §5 C19",
+    note="Trusted: TLC, Rat/ScoresProps. Samples <= 5 values from 0..4; candidates for the minimiser are the integers "
+         "0..4 (complete for a convex piecewise-linear function with kinks at sample points). mape/bias are exercised on "
+         "1-D arrays only.",
+    technique="TLA+ spec (ScoresProps over exact rationals) model-checked with TLC; TLC-generated cases replayed into "
+              "typhon.retrieval.scores")
+
 NOT_APPLICABLE = {
     "C07": "Every clause concerns floating-point accuracy of sin/cos/arctan2/sqrt compositions or convergence of a "
            "fixed-point iteration over a continuous domain; TLA+/TLC has no reals or transcendental functions and there "
